@@ -92,41 +92,47 @@ def step_replay_case(seed, k, n_warm=12, n_steps=25):
             sim, step = nxt, step2
     return viol
 
-def tie_case(seed, k, replays=6):
-    """the second sentence where HIVE's own driver model decides: human drivers on shift who reposition on their own (idle for longer
-    than the time-out, or waiting at the home base) towards the search hex with most open requests, with TIES between hexes; no
-    controller at all.  The same saved state is stepped several times; all results must agree."""
-    import io, contextlib
+def tie_world(seed, k):
+    """a small world for the driver model's own decisions: human drivers on shift, idle for longer than the time-out, and open
+    requests spread over several search cells with the SAME number in each of the fullest ones"""
     from uuid import uuid4
     import h3
     from nrel.hive.resources import mock_lobster as ml
     from nrel.hive.state.simulation_state import simulation_state_ops as sso
-    from nrel.hive.state.simulation_state.update.step_simulation import StepSimulation
     from nrel.hive.state.vehicle_state.idle import Idle
     rng = random.Random(f'tie|{seed}|{k}')
+    env = ml.mock_env()
+    tmo = env.config.dispatcher.idle_time_out_seconds
+    base = h3.geo_to_h3(39.7539 + rng.uniform(-0.002, 0.002), -104.9740 + rng.uniform(-0.002, 0.002), 15)
+    ring = sorted(h3.k_ring(base, 60))
+    vehicles = []
+    for i in range(rng.randint(1, 3)):
+        vid = f'v{i}'
+        st = Idle(vehicle_id=vid, instance_id=uuid4(), idle_duration=tmo + rng.choice([1, 60, 600]))
+        vehicles.append(ml.mock_vehicle_from_geoid(vehicle_id=vid, geoid=rng.choice(ring), vehicle_state=st, driver_state=ml.mock_human_driver(available=True)))
+    sim = ml.mock_sim(vehicles=tuple(vehicles), sim_time=rng.choice([0, 600, 7200]))
+    hexes = {}
+    for g in ring:
+        hexes.setdefault(h3.h3_to_parent(g, sim.sim_h3_search_resolution), []).append(g)
+    chosen = rng.sample(sorted(hexes), min(len(hexes), rng.randint(2, 4)))
+    per = rng.randint(1, 2)
+    reqs = []
+    for hx in chosen:
+        for j in range(per):
+            reqs.append(ml.mock_request_from_geoids(request_id=f'r{len(reqs)}', origin=rng.choice(hexes[hx]), destination=rng.choice(ring), departure_time=sim.sim_time))
+    sim = sso.add_entities(sim, tuple(reqs))
+    return sim, env, {'search_hexes_with_requests': len(chosen), 'requests_per_hex': per}
+
+def tie_case(seed, k, replays=6):
+    """the second sentence where HIVE's own driver model decides: human drivers on shift who reposition on their own towards the
+    search hex with most open requests, with TIES between hexes; no controller at all.  The same saved state is stepped several
+    times; all results must agree."""
+    import io, contextlib
+    from nrel.hive.state.simulation_state.update.step_simulation import StepSimulation
     buf = io.StringIO()
     with contextlib.redirect_stdout(buf), contextlib.redirect_stderr(buf):
-        env = ml.mock_env()
-        tmo = env.config.dispatcher.idle_time_out_seconds
-        base = h3.geo_to_h3(39.7539 + rng.uniform(-0.002, 0.002), -104.9740 + rng.uniform(-0.002, 0.002), 15)
-        ring = sorted(h3.k_ring(base, 60))
-        vehicles = []
-        for i in range(rng.randint(1, 3)):
-            vid = f'v{i}'
-            st = Idle(vehicle_id=vid, instance_id=uuid4(), idle_duration=tmo + rng.choice([1, 60, 600]))
-            vehicles.append(ml.mock_vehicle_from_geoid(vehicle_id=vid, geoid=rng.choice(ring), vehicle_state=st, driver_state=ml.mock_human_driver(available=True)))
-        sim = ml.mock_sim(vehicles=tuple(vehicles), sim_time=rng.choice([0, 600, 7200]))
-        # requests spread over several search hexes, the same number in each of the fullest ones
-        hexes = {}
-        for g in ring:
-            hexes.setdefault(h3.h3_to_parent(g, sim.sim_h3_search_resolution), []).append(g)
-        chosen = rng.sample(sorted(hexes), min(len(hexes), rng.randint(2, 4)))
-        per = rng.randint(1, 2)
-        reqs = []
-        for hx in chosen:
-            for j in range(per):
-                reqs.append(ml.mock_request_from_geoids(request_id=f'r{len(reqs)}', origin=rng.choice(hexes[hx]), destination=rng.choice(ring), departure_time=sim.sim_time))
-        sim = sso.add_entities(sim, tuple(reqs))
+        sim, env, info = tie_world(seed, k)
+        chosen, per = range(info['search_hexes_with_requests']), info['requests_per_hex']
         step = StepSimulation.from_tuple(())
         first, _ = step.update(sim, env)
         f0 = sha(canon(first))
